@@ -1,6 +1,6 @@
 /-
   SpVerif.Model.Replace — executable model of `simple_parsing/replace.py` (replace, replace_subgroups,
-  _unflatten_selection_dict) and `simple_parsing/utils.py:912-956` (unflatten, unflatten_split).  Line numbers refer to /repo at c681aea.
+  _unflatten_selection_dict) and `simple_parsing/utils.py:912-956` (unflatten, unflatten_split).  Line numbers refer to /repo at bba27c4.
 
   Instances are trees; every field carries its `init` flag and (for `init=False` fields) the class
   default that `dataclasses.replace` re-creates.  Dicts are insertion-ordered association lists.
@@ -197,15 +197,15 @@ def refEdit : Val → List Str → Val → Option Val
     | Option.none => Option.none
   | _, _ :: _, _ => Option.none
 
-/-! ### replace.py:190-238 `_unflatten_selection_dict(recursive=False)`, 115-187 `replace_subgroups` -/
+/-! ### replace.py:200-248 `_unflatten_selection_dict(recursive=False)`, 115-197 `replace_subgroups` -/
 
 def keyword : Str := "__key__".toList
 
-/-- first pass (:213-217): top-level keys that have at least one dotted entry -/
+/-- first pass (:223-227): top-level keys that have at least one dotted entry -/
 def selTops (sel : Dict) : List Str :=
   sel.filterMap (fun kv => match splitDot kv.1 with | t :: _ :: _ => some t | _ => Option.none)
 
-/-- second pass (:219-231) for one item -/
+/-- second pass (:229-241) for one item -/
 def selStep (tops : List Str) (dc : Dict) (kv : Str × Val) : Dict :=
   match splitDot kv.1 with
   | top :: rest =>
@@ -236,37 +236,51 @@ def sgMeta (tbl : SgTable) (cls fname : Str) : SgMeta :=
   | some e => e.2
   | Option.none => { hasDc := false, isOpt := false, sg := Option.none, fac := Option.none }
 
-/-- replace.py:155-179: the new member chosen by `value_of_selection`; `cur` is the field's current value -/
-def pickMember (m : SgMeta) (cur : Val) (vos : Val) : Out Val :=
+/-- replace.py:157 (repair 452ee05): `value_of_selection is None and child_selections and
+    is_dataclass_instance(field_value)` — only members *below* the field are selected -/
+def descends (cur vos : Val) (hasChild : Bool) : Bool :=
+  if hasChild then
+    match vos with
+    | .none => (match cur with | .inst _ _ => true | _ => false)
+    | _ => false
+  else false
+
+/-- replace.py:161-185: the member chosen by `value_of_selection` when the current value is not kept -/
+def pickOther (m : SgMeta) (cur : Val) (vos : Val) : Out Val :=
   match vos with
-  | .type _ mk => .ok mk                                    -- :155 dataclass type → `value_of_selection()`
-  | .inst c fs => .ok (.inst c fs)                          -- :157 instance → deepcopy
+  | .type _ mk => .ok mk                                    -- :161 dataclass type → `value_of_selection()`
+  | .inst c fs => .ok (.inst c fs)                          -- :163 instance → deepcopy
   | _ =>
     match m.sg with
-    | some (a :: alts) =>                                   -- :159 truthy `metadata["subgroups"]`
+    | some (a :: alts) =>                                   -- :165 truthy `metadata["subgroups"]`
       match vos with
       | .str key =>
         match dget (a :: alts) key with
         | some alt => .ok alt
         | Option.none => .error (.raise .keyError)
-      | _ => .error (.raise .assertionError)                -- :160
+      | _ => .error (.raise .assertionError)                -- :166
     | _ =>
       match vos with
       | .none =>
-        if m.isOpt then .ok .none                           -- :168
-        else match cur with                                 -- :170-175 (hasDc already checked at :142)
-          | .inst c fs => .ok (.inst c fs)                  -- only subgroups below are replaced: keep the current instance
+        if m.isOpt then .ok .none                           -- :174
+        else match cur with                                 -- :176-181 (hasDc already checked at :142)
+          | .inst c fs => .ok (.inst c fs)                  -- keep the current instance (no child selections here)
           | _ => match m.fac with
             | some f => .ok f
             | Option.none => .error (.raise .typeError)     -- `MISSING()` is not callable
-      | _ => .error (.raise .valueError)                    -- :177
+      | _ => .error (.raise .valueError)                    -- :183
 
-/-- replace.py:147-153: `(value_of_selection, child_selections)` of one selection entry -/
+/-- replace.py:157-185: the new member; `cur` is the field's current value, `hasChild` = truthy `child_selections` -/
+def pickMember (m : SgMeta) (cur : Val) (vos : Val) (hasChild : Bool) : Out Val :=
+  if descends cur vos hasChild then .ok cur else pickOther m cur vos
+
+/-- replace.py:147-155: `(value_of_selection, child_selections)` of one selection entry (taken from a COPY of a
+    nested selection dict since abc6969; the model is pure, so the caller's dict is not represented) -/
 def selSplit : Val → Val × Dict
   | .dict sd => ((dget sd keyword).getD .none, ddel sd keyword)
   | x => (x, [])
 
-/-- the field loop of `replace_subgroups` (:130-186); `recur` is the recursive call at :182 -/
+/-- the field loop of `replace_subgroups` (:130-191); `recur` is the recursive call at :188 -/
 def sgFields (tbl : SgTable) (recur : Val → Dict → Out Val) (cls : Str) : List Fld → Dict → Out (List Fld)
   | [], _ => .ok []
   | .mk n i v d :: rest, sel =>
@@ -279,16 +293,22 @@ def sgFields (tbl : SgTable) (recur : Val → Dict → Out Val) (cls : Str) : Li
     | some s =>
       let m := sgMeta tbl cls n
       if !m.hasDc then .error (.raise .valueError) else     -- :142
-      let vc : Val × Dict := selSplit s                     -- :147-153
-      match pickMember m v vc.1 with
+      let vc : Val × Dict := selSplit s                     -- :147-155
+      match pickMember m v vc.1 (!vc.2.isEmpty) with
       | .error e => .error e
       | .ok fv =>
-        match (if vc.2.isEmpty then .ok fv else recur fv vc.2) with   -- :181-184
+        match (if vc.2.isEmpty then .ok fv else recur fv vc.2) with   -- :187-190
         | .error e => .error e
         | .ok nv =>
           match sgFields tbl recur cls rest (ddel sel n) with
           | .ok r => .ok (.mk n i nv d :: r)
           | .error e => .error e
+
+/-- what is left of the (unflattened) selection dict after the loop popped every field name (:147): the keys
+    that name no field -/
+def selLeft : List Fld → Dict → Dict
+  | [], sel => sel
+  | .mk n _ _ _ :: rest, sel => selLeft rest (ddel sel n)
 
 /-- `replace_subgroups(obj, selections)`; `fuel` bounds the nesting of selections (each recursive call
     receives a strictly smaller selection dict), exhaustion is reported as unmodelled. -/
@@ -297,7 +317,9 @@ def replaceSg (tbl : SgTable) : Nat → Val → Dict → Out Val
   | 0, _, _ :: _ => .error (.unmodelled "fuel".toList)
   | fuel + 1, .inst cls fs, s :: sel =>
     match sgFields tbl (replaceSg tbl fuel) cls fs (unflattenSel (s :: sel)) with
-    | .ok fs' => .ok (.inst cls (rebuild fs'))              -- :187 (leftover selection keys are dropped, not checked)
+    | .ok fs' =>
+      if (selLeft fs (unflattenSel (s :: sel))).isEmpty then .ok (.inst cls (rebuild fs'))   -- :197
+      else .error (.raise .typeError)                       -- :193 leftover keys name no field (repair bba27c4)
     | .error e => .error e
   | _ + 1, _, _ :: _ => .error (.raise .typeError)          -- `dataclasses.fields(obj)` on a non-dataclass
 
